@@ -208,7 +208,15 @@ func c11RunLevel(e *env) {
 					case <-time.After(2 * time.Second):
 						fail("the early answer to an upload was never delivered")
 					}
-					if took > 2*time.Second {
+					// (a client that sends nothing - silent, idle between requests, a partial head - holds Run until the
+					// time limit by itself, as it does without this upload next to it: the duration says nothing then)
+					held := false
+					for _, o := range c.Clients {
+						if o == "silent" || o == "idle" || o == "partial" {
+							held = true
+						}
+					}
+					if took > 2*time.Second && !held {
 						fail(fmt.Sprintf("Run took %v to return: it waited for the rest of an upload whose answer had been delivered", took.Round(10*time.Millisecond)))
 					}
 				}
